@@ -849,7 +849,11 @@ func (cfg *Config) listElems(pe *syntax.ParamExp) (elems []string, star, ok bool
 		case Indexed:
 			return cfg.sliceElems(pe, vr.List, vr.Indexes, false), lit == "*", true
 		case Associative:
-			return slices.Sorted(maps.Values(vr.Map)), lit == "*", true
+			// An empty array must not result in a nil slice,
+			// which our callers take as not being a list expansion.
+			vals := slices.AppendSeq(make([]string, 0, len(vr.Map)), maps.Values(vr.Map))
+			slices.Sort(vals)
+			return vals, lit == "*", true
 		}
 	}
 	return nil, false, false
@@ -886,7 +890,7 @@ func (cfg *Config) quotedElemFields(pe *syntax.ParamExp) ([]string, error) {
 			case Indexed:
 				return vr.indexedKeys(), nil
 			case Associative:
-				return slices.Collect(maps.Keys(vr.Map)), nil
+				return slices.AppendSeq(make([]string, 0, len(vr.Map)), maps.Keys(vr.Map)), nil
 			}
 		}
 		return nil, nil
